@@ -76,6 +76,10 @@ CHECKS = {
    technique="exhaustive taint enumeration: every value position tainted alone / all together / none x every output surface, judged by a strict own HTML tokenizer with a context-sensitive escaping oracle",
    text="Each of 49 value positions of a document template (pointers, names and name parts, types, sex, event values, dates, places with form/map, notes, attributes, _UID, source title/properties at two depths, citation page) carries a unique token with < > \" ' & (also followed by a literal &nbsp;), alone and all together, over every page of a full publish under show/hide/placeholder, the diff report (3 show modes x tainted left/right/both), HTML query output for 11 queries and the warnings table; each page must tokenize strictly and nest properly and every token occurrence must be escaped inside text or a quoted attribute value, never in names, unquoted values, script/style, comments or breaking a handler's JavaScript string.",
    note="Trusts the tokenizer in harness/pub. The single tier is exhaustive over positions x surfaces (quick = thorough). Three sink findings fixed (core.Tag attributes, core.Anchor, core.TableHead)."),
+ "C19": dict(engine="E1+E2+E4", category="model_checking", design_ref="§3.1, §3.4, §4 C19",
+   technique="stateless model checking of the instrumented Publisher.Publish under the controlled scheduler (delay-bounded exhaustive schedules, race monitor), exhaustive enumeration of publish histories in fresh processes, exhaustive writer-fault enumeration (every k, also under every schedule within the bound), and exhaustive page-group x visibility enumeration for names and link closure",
+   text="names: 4 documents incl. a hostile one (path-like source pointers, colliding person/place keys, odd surnames) x all 64 page-group subsets x 3 visibilities - plain unique names, every link resolves, DirectoryFileWriter stays inside its directory. schedules: the real Publish (instrumented at check time) on D1/D2 x jobs {1,2,3,(8,16)} x map order, every schedule with up to 2 (quick) / 3 (thorough) deviations - file set equals the sequential reference, vector-clock race monitor, termination. histories: every sequence of up to 3 publishes over {D1,D2,D4 (same pointers, other people),empty} in one process equals each document published alone in a fresh process. faults: writer failing at file k for every k x jobs {1,2,3,8}, on D1 also under every schedule within the bound - Publish returns an error and terminates.",
+   note="A read-only overlay file adds html.VerifResetSurnames (guard: overlay only, nothing committed) so that every explored execution starts from a fresh-process state. Map iteration in instrumented packages is sorted/reverse-sorted under exploration. Known findings: cache races (shared with C11), links into disabled page groups, file-key collisions on the hostile document."),
  "C20": dict(engine="E3", category="exploration", design_ref="§4 C20",
    technique="bounded-exhaustive enumeration of skeleton family graphs x all slot assignments with up to k deviations from threshold lattices x all record/child permutations, against an independent reference evaluator of the documented warning conditions",
    text="Skeleton documents (two families sharing a parent with 0-3 children; a 5-record family) with each date/sex slot either at a no-warning default or at a value clearly on one side of a documented threshold; every assignment with up to 2 (quick) / 3 (thorough) deviating slots; all 120 record orders x both child orders of the small skeleton; the multiset of (warning name, people, context) from Document.Warnings() must equal the reference evaluator's.",
